@@ -348,7 +348,7 @@ func (its *PushPullHandler) processSubscribeOrCreate(code pushPullCase) errors.O
 		default:
 		}
 	}
-	if its.datatypeDoc == nil {
+	if its.datatypeDoc == nil || (code == caseUsedDUID && (its.gotOption.HasCreateBit() || its.gotOption.HasSubscribeBit())) {
 		return errors.PushPullAbortionOfClient.New(its.ctx.L(), "no datatype: "+its.Key)
 	}
 	return its.initClientInfoWithDatatypeDoc()
@@ -412,11 +412,13 @@ func (its *PushPullHandler) evaluatePushPullCase() (pushPullCase, errors.OrdaErr
 		if err != nil {
 			return caseError, errors.PushPullAbortionOfServer.New(its.ctx.L(), "fail to get datatype by duid from DB")
 		}
-		if its.datatypeDoc != nil && its.datatypeDoc.CollectionNum != its.collectionDoc.Num {
-			its.datatypeDoc = nil // a datatype of another collection is not visible to this client
-		}
 		if its.datatypeDoc == nil {
 			return caseMatchNothing, nil
+		}
+		if its.datatypeDoc.CollectionNum != its.collectionDoc.Num || its.datatypeDoc.Key != its.gotPushPullPack.Key {
+			// the id belongs to a datatype of another collection or of another key:
+			// it is neither visible to this request nor free to be created again
+			its.datatypeDoc = nil
 		}
 		return caseUsedDUID, nil
 	}
